@@ -112,6 +112,21 @@ func TestVerifBoundedOpenPaths(t *testing.T) {
 			}
 		}
 	}
+	// directed witness of F45: in tree form an open result path must not become a polygon of the tree
+	{
+		open := Paths64{{{2, 2}, {8, 3}, {5, 8}}}
+		clip := Paths64{{{0, 0}, {10, 0}, {10, 10}, {0, 10}}}
+		c := NewClipper64()
+		c.AddPaths(open, Subject, true)
+		c.AddPaths(clip, Clip, false)
+		tree := NewPolyTree64()
+		var od PathsD
+		c.ExecutePolyTree64(Intersection, NonZero, tree, &od)
+		cases++
+		if tree.Count() != 0 {
+			report("closed-solution-unaffected", Intersection, NonZero, open, nil, clip, nil, fmt.Sprintf("tree form: the open path appears as a polygon of the tree (%d top-level nodes, want 0)", tree.Count()))
+		}
+	}
 	for it := 0; it < n; it++ {
 		var open Paths64
 		for k := 1 + rng.Intn(2); k > 0; k-- {
